@@ -368,4 +368,108 @@ def bulkLabels (s : CState) (id : Nat) : List Label :=
   | some c => (c.keys.eraseDups.map (fun p => Label.cDelOne id p.1 p.2)) ++ [.cEnd id]
   | none => []
 
+/-! ## The scheduled-interleaving acceptor (what `kitdrv C15` runs for `cnew …` scripts)
+
+The harness executes a script of requests on the real cache (cleaners parked at the hook point)
+and sends the same requests here; `respond` answers by *running labels of the LTS* and reports what
+the harness must have observed. A real trace is accepted iff every answer equals the observed one;
+`KitProofs` shows the labels executed form a run of the LTS (`accepted_trace_is_run`), so every
+theorem about `Reach`/`crun` applies to every accepted real trace. -/
+
+inductive Req where
+  | set (k : Key) (v : Val) (ttl : Int)
+  | get (k : Key)
+  | del (k : Key)
+  | adv (d : Nat)
+  | cbegin (id : Nat) (isReset : Bool)
+  | cfinish (id : Nat)
+  | bgsnap
+  | bgfinish
+  | stop
+  | stopcall (id : Nat)
+  | stopwait (id : Nat)
+  deriving Repr, DecidableEq
+
+inductive Tick where
+  | sent | drop | none
+  deriving Repr, DecidableEq
+
+inductive Resp where
+  | ok
+  | panic
+  | hit (v : Val)
+  | miss
+  | ticked (t : Tick)
+  | snap (keys : List Key)
+  | returned
+  | blocked
+  | error
+  deriving Repr, DecidableEq
+
+structure Answer where
+  state : CState
+  resp : Resp
+  labels : List Label
+
+/-- Run `ls`; answer `r` of the reached state, or `error` (state unchanged, no labels) if some
+label is not enabled. -/
+def tryRun (s : CState) (ls : List Label) (r : CState → Resp) : Answer :=
+  match crun s ls with
+  | some s' => ⟨s', r s', ls⟩
+  | none => ⟨s, .error, []⟩
+
+/-- First alternative whose labels are all enabled. -/
+def firstRun (s : CState) : List (List Label × Resp) → Answer
+  | [] => ⟨s, .error, []⟩
+  | (ls, r) :: rest =>
+    match crun s ls with
+    | some s' => ⟨s', r, ls⟩
+    | none => firstRun s rest
+
+def snapResp (id : Nat) (s : CState) : Resp :=
+  match findCl s.cls id with
+  | some c => .snap (c.keys.map (·.1))
+  | none => .error
+
+def tickOf (s : CState) (d : Nat) : Tick :=
+  if !s.tickerStopped && decide (s.nextTick ≤ s.now + d) && decide (0 < s.period) then
+    (if s.tickPending then .drop else .sent)
+  else .none
+
+def respond (s : CState) : Req → Answer
+  | .set k v ttl => if badTTL ttl then ⟨s, .panic, []⟩ else tryRun s [.set k v ttl] (fun _ => .ok)
+  | .get k =>
+      let r := getOfC s k
+      tryRun s [.get k r] (fun _ => match r with | some v => .hit v | none => .miss)
+  | .del k => tryRun s [.delete k] (fun _ => .ok)
+  | .adv d => tryRun s [.advance d] (fun _ => .ticked (tickOf s d))
+  | .cbegin id r => tryRun s ([.cBegin id r] ++ snapLabels s id) (snapResp id)
+  | .cfinish id => if id = 0 then ⟨s, .error, []⟩ else tryRun s (bulkLabels s id) (fun _ => .ok)
+  | .bgsnap => tryRun s ([.bgTake] ++ snapLabels s 0) (snapResp 0)
+  | .bgfinish => tryRun s (bulkLabels s 0) (fun _ => .ok)
+  | .stop =>
+      tryRun s ([.stopCall 0] ++ (if s.bg = .idle then [.bgExit] else []) ++ [.stopReturn 0]) (fun _ => .ok)
+  | .stopcall id =>
+      firstRun s [([.stopCall id, .bgExit, .stopReturn id], .returned),
+                  ([.stopCall id, .stopReturn id], .returned),
+                  ([.stopCall id], .blocked)]
+  | .stopwait id =>
+      firstRun s [([.bgExit, .stopReturn id], .ok), ([.stopReturn id], .ok)]
+
+/-- Answer a whole script. -/
+def drive (s : CState) : List Req → CState × List Resp × List Label
+  | [] => (s, [], [])
+  | r :: rs =>
+    let a := respond s r
+    let (s', resps, ls) := drive a.state rs
+    (s', a.resp :: resps, a.labels ++ ls)
+
+/-- The caller operation a request stands for in the sequential reference (a `Set` with a bad ttl
+panics and is no operation). -/
+def reqOp : Req → Option Op
+  | .set k v ttl => if badTTL ttl then none else some (.set k v ttl)
+  | .del k => some (.delete k)
+  | .adv d => some (.advance d)
+  | _ => none
+
 end Kit.TTLCache
